@@ -96,7 +96,7 @@ ReadOps   == GetOps \cup {"as_slices", "as_mut_slices", "observe", "expect_layou
               "gt", "ge", "partial_cmp", "cmp", "hash", "debug", "eq_slice", "write_via", "poison"}
 CtorOps   == {"new", "default", "boxed", "from_array", "from_iter"}
 ViewNew   == {"iter", "iter_mut", "range", "range_mut", "drain"}
-ViewOps   == {"v_next", "v_next_back", "v_len", "v_size_hint", "v_clone", "v_rest", "v_debug",
+ViewOps   == {"v_next", "v_next_back", "v_nth", "v_nth_back", "v_len", "v_size_hint", "v_clone", "v_rest", "v_debug",
               "v_drop", "v_forget"}
 AllocOps  == {"boxed", "to_vec"}
 RetByVal  == PushOps \cup {"pop_back", "pop_front", "remove", "swap_remove_back", "swap_remove_front",
@@ -237,7 +237,7 @@ RetIds(e) == IF e.ret.k \in {"some", "err", "ids"} THEN Range(e.ret.ids) ELSE {}
 \* elements handed to the caller by value
 Handed(S, e) ==
     IF e.op \in RetByVal THEN RetIds(e)
-    ELSE IF e.op \in {"v_next", "v_next_back", "v_rest"} /\ HasView(S, e.v) /\ S.views[e.v].kind \in {"drain", "into"}
+    ELSE IF e.op \in {"v_next", "v_next_back", "v_nth", "v_nth_back", "v_rest"} /\ HasView(S, e.v) /\ S.views[e.v].kind \in {"drain", "into"}
          THEN RetIds(e) ELSE {}
 
 PostSeqOf(S, e) == IF e.post.obs /\ e.post.len >= 0 THEN e.post.seq
@@ -249,6 +249,8 @@ WinAfter(S, e) ==
     ELSE LET w == S.views[e.v].win IN
          CASE e.op = "v_next" -> DropN(w, 1)
            [] e.op = "v_next_back" -> Take(w, Max(Len(w) - 1, 0))
+           [] e.op = "v_nth" -> DropN(w, e.i + 1)                          \* nth(k): k elements skipped, one yielded
+           [] e.op = "v_nth_back" -> Take(w, Max(Len(w) - e.i - 1, 0))
            [] e.op \in {"v_rest", "v_drop", "v_forget"} -> <<>>
            [] OTHER -> w
 
@@ -421,6 +423,13 @@ ViewFail(S, e) ==
       [] op = "v_next_back" ->
              Chk(IF w = <<>> THEN RetNone(e) ELSE RetSome(e, w[Len(w)]), vh, "next_back")
         \cup Chk(w = <<>> \/ ~borrows \/ e.ret.k # "some" \/ e.ret.slots = <<SlotOfId(S, vw.h, w[Len(w)])>>, "C07,C08", "address")
+      [] op = "v_nth" ->
+             Chk(IF e.i >= Len(w) THEN RetNone(e) ELSE RetSome(e, w[e.i + 1]), vh, "nth")
+        \cup \* an owning view destroys what nth() skips
+             Chk(borrows \/ DropIds(e) = Range(SubSeq(w, 1, Min(e.i, Len(w)))), IF vw.kind = "drain" THEN "C03,C09" ELSE "C03,C08", "nth_skipped_elements")
+      [] op = "v_nth_back" ->
+             Chk(IF e.i >= Len(w) THEN RetNone(e) ELSE RetSome(e, w[Len(w) - e.i]), vh, "nth_back")
+        \cup Chk(borrows \/ DropIds(e) = Range(SubSeq(w, Max(Len(w) - e.i, 0) + 1, Len(w))), IF vw.kind = "drain" THEN "C03,C09" ELSE "C03,C08", "nth_skipped_elements")
       [] op \in {"v_len", "v_size_hint"} ->
              Chk(e.ret.k = "n" /\ e.ret.n = Len(w) /\ e.ret.ids2 = <<Len(w), Len(w)>>, vh, "len")
       [] op = "v_rest" ->
@@ -707,7 +716,7 @@ Next(S, e) ==
               ELSE IF e.op \in {"iter_default", "iter_mut_default"}
               THEN Upd(S.views, e.v, [kind |-> "iter", h |-> -1, win |-> <<>>, pre |-> <<>>, a |-> 0, b |-> 0])
               ELSE IF e.op \in {"v_drop", "v_forget"} THEN Del(S.views, e.v)
-              ELSE IF e.op \in {"v_next", "v_next_back", "v_rest"} /\ HasView(S, e.v)
+              ELSE IF e.op \in {"v_next", "v_next_back", "v_nth", "v_nth_back", "v_rest"} /\ HasView(S, e.v)
               THEN [S.views EXCEPT ![e.v].win = WinAfter(S, e)]
               ELSE IF e.op = "v_clone" /\ HasView(S, e.v)
               THEN Upd(S.views, e.v2, IF S.views[e.v].kind = "into"
